@@ -542,13 +542,15 @@ class LocalScheduleInterpreter(OneShotTask):
                         if isinstance(time_value.value, Null):
                             if _debug: LocalScheduleInterpreter._debug("    - relinquish exception @ %r", tval)
                             event_priority[priority] = None
-                            next_transition_time[priority] = None
                         else:
                             if _debug: LocalScheduleInterpreter._debug("    - consider exception @ %r", tval)
                             event_priority[priority] = time_value.value
-                            next_transition_time[priority] = next_day
                     else:
-                        next_transition_time[priority] = tval
+                        # the earliest upcoming entry of this priority, another
+                        # special event with the same priority may have one as well
+                        pending = next_transition_time[priority]
+                        if (pending is None) or (tval < pending):
+                            next_transition_time[priority] = tval
                         break
 
         # assume the next transition will be at the start of the next day
